@@ -40,6 +40,22 @@ def run(pid, tier, seed, replay=None):
             if pid != 'C03' and r['verdict'] not in ('ok',):
                 # a run that did not finish cannot witness this property; C03 reports it.  Still a tie problem here.
                 fails.append(T.fail(s, r, 'run did not complete (%s %s): reported under C03; this property was not observable' % (r['verdict'], r['detail']), states=r['states']))
+        if pid == 'C03':
+            # handlers may call async to any recursion depth at every capacity: long chains of handler-spawned messages
+            exe, err = compile_sim('chain', ['harness/chain.cpp'])
+            if exe is None:
+                fails.append({'what': 'chain harness does not compile against the current headers', 'log': (err or '')[-1200:]})
+            else:
+                hops = 6000 if tier_ == 'quick' else 60000
+                for i, (nr, selfsend, kb) in enumerate([(1, 1, 0), (2, 1, 0), (2, 0, 0)] if tier_ == 'quick' else [(1, 1, 0), (3, 1, 0), (2, 0, 0), (3, 0, 1)]):
+                    r = simrun(exe, nr, [hops, selfsend], ppn=nr, seed=seed_ * 11 + i, policy=['uniform', 'late', 'early', 'uniform'][i], wall=300,
+                               env={'YGM_COMM_BUFFER_SIZE_KB': kb})
+                    ok = r['verdict'] == 'ok' and all(l.split()[2] == l.split()[3] for l in r['out'] if l.startswith('CH ')) and any(l.startswith('CH ') for l in r['out'])
+                    state['chain_hops'] = state.get('chain_hops', 0) + hops * nr
+                    if not ok:
+                        fails.append({'what': 'a chain of %d handler-spawned messages per rank (%s, %d ranks, capacity %d KB) did not complete: %s %s %s' % (
+                                          hops, 'self-addressed' if selfsend else 'to the neighbour', nr, kb, r['verdict'], r['detail'], [l for l in r['out'] if l.startswith('CH ')][:2]),
+                                      'cmd': r['cmd'], 'kind': 'chain', 'config': 'chain', 'scenario': 'chain %d %d' % (hops, selfsend)})
         if pid == 'C01':
             # communicators other than MPI_COMM_WORLD
             from . import subcomm
@@ -93,6 +109,7 @@ def run(pid, tier, seed, replay=None):
                 'extra': {'distribution': dist, 'lockstep_runs': len(ls), 'lockstep_events': sum(l.get('events', 0) for s, l in ls),
                           'lockstep_disagreements': state.get('lockstep_bad', []),
                           'container_destructor_observations': state.get('dtor_observations', 0),
+                          'handler_chain_hops': state.get('chain_hops', 0),
                           'messages_on_non_world_communicators': state.get('subcomm_messages', 0),
                           'replayed_scenarios_satisfying_the_theorem_hypotheses': sum(1 for s, l in ls if l.get('legal') == 'ok')}}
     def search():
